@@ -37,7 +37,9 @@ pub enum Op {
     ReadHistory { k: usize, g: usize, c: usize, count: Option<usize> },
     /// picks: indexes into the delivered-ever list; unknown: also name IDs never added; twice: repeat one ID
     Ack { k: usize, g: usize, picks: Vec<usize>, unknown: bool, twice: bool },
-    Claim { k: usize, g: usize, c: usize, picks: Vec<usize>, never: bool, justid: bool, unknown: bool },
+    /// never: min-idle one hour; idle150: min-idle 150 ms, decided by the harness clock
+    Claim { k: usize, g: usize, c: usize, picks: Vec<usize>, never: bool, justid: bool, unknown: bool, idle150: bool },
+    Sleep { ms: u32 },
     /// delete entries that are not pending anywhere
     Del { k: usize, pick: usize },
 }
@@ -58,7 +60,8 @@ fn op() -> BoxedStrategy<Op> {
         9 => (k(), g(), c(), count(), prop::bool::weighted(0.15)).prop_map(|(k, g, c, count, noack)| Op::Read { k, g, c, count, noack }),
         2 => (k(), g(), c(), count()).prop_map(|(k, g, c, count)| Op::ReadHistory { k, g, c, count }),
         5 => (k(), g(), picks(), prop::bool::weighted(0.2), prop::bool::weighted(0.2)).prop_map(|(k, g, picks, unknown, twice)| Op::Ack { k, g, picks, unknown, twice }),
-        4 => (k(), g(), c(), picks(), prop::bool::weighted(0.25), any::<bool>(), prop::bool::weighted(0.2)).prop_map(|(k, g, c, picks, never, justid, unknown)| Op::Claim { k, g, c, picks, never, justid, unknown }),
+        5 => (k(), g(), c(), picks(), prop::bool::weighted(0.2), any::<bool>(), prop::bool::weighted(0.2), prop::bool::weighted(0.4)).prop_map(|(k, g, c, picks, never, justid, unknown, idle150)| Op::Claim { k, g, c, picks, never, justid, unknown, idle150: idle150 && !never }),
+        1 => Just(Op::Sleep { ms: 260 }),
         1 => (k(), 0..64usize).prop_map(|(k, pick)| Op::Del { k, pick }),
     ]
     .boxed()
@@ -68,6 +71,8 @@ fn op() -> BoxedStrategy<Op> {
 struct GroupM {
     cursor: Id,
     pel: BTreeMap<Id, String>,
+    /// when each pending entry was last delivered or claimed (harness clock)
+    pel_time: BTreeMap<Id, std::time::Instant>,
     consumers: BTreeSet<String>,
     /// consumers named by a read or claim that delivered nothing: whether that creates them is
     /// not stated by the property; the first observation decides
@@ -494,6 +499,7 @@ fn run_history(server: &mut Server, ops: &[Op]) -> CaseResult {
                                 gm.delivered_ever.push(*idv);
                                 if !*noack {
                                     gm.pel.insert(*idv, CONSUMERS[*ci].to_string());
+                                    gm.pel_time.insert(*idv, std::time::Instant::now());
                                 }
                             }
                             if *noack && !want.is_empty() {
@@ -533,6 +539,10 @@ fn run_history(server: &mut Server, ops: &[Op]) -> CaseResult {
                             }
                             if !want.is_empty() {
                                 labels.insert("explicit-id-re-read");
+                            }
+                            // whether a re-read restarts the idle time is not stated: undecided from here
+                            for idv in &want {
+                                gm.pel_time.remove(idv);
                             }
                         }
                         None => {
@@ -581,7 +591,11 @@ fn run_history(server: &mut Server, ops: &[Op]) -> CaseResult {
                         }
                     }
                 }
-                Op::Claim { k, g, c: ci, picks, never, justid, unknown } => {
+                Op::Sleep { ms } => {
+                    std::thread::sleep(std::time::Duration::from_millis(*ms as u64));
+                    labels.insert("slept");
+                }
+                Op::Claim { k, g, c: ci, picks, never, justid, unknown, idle150 } => {
                     let gm0 = m[*k].groups.get(GROUPS[*g]).cloned();
                     let pool: Vec<Id> = gm0.as_ref().map(|g| g.delivered_ever.clone()).unwrap_or_default();
                     let mut idsv: Vec<Id> = picks.iter().filter_map(|p| if pool.is_empty() { None } else { Some(pool[p % pool.len()]) }).collect();
@@ -590,18 +604,45 @@ fn run_history(server: &mut Server, ops: &[Op]) -> CaseResult {
                     }
                     idsv.sort();
                     idsv.dedup();
-                    let mut cmd: Cmd = vec![bs("XCLAIM"), bs(KEYS[*k]), bs(GROUPS[*g]), bs(CONSUMERS[*ci]), bs(if *never { "3600000" } else { "0" })];
+                    let mut cmd: Cmd = vec![bs("XCLAIM"), bs(KEYS[*k]), bs(GROUPS[*g]), bs(CONSUMERS[*ci]), bs(if *never { "3600000" } else if *idle150 { "150" } else { "0" })];
                     cmd.extend(idsv.iter().map(|i| ids(*i).into_bytes()));
                     if *justid {
                         cmd.push(bs("JUSTID"));
                     }
+                    let t_before = std::time::Instant::now();
                     let r = c.cmd(&cmd);
+                    let t_after = std::time::Instant::now();
                     sent.push(cmd.clone());
                     let st = m[*k].clone();
                     match m[*k].groups.get_mut(GROUPS[*g]) {
                         Some(gm) => {
                             let name = CONSUMERS[*ci].to_string();
-                            let want: Vec<Id> = if *never { vec![] } else { idsv.iter().filter(|i| gm.pel.contains_key(i)).copied().collect() };
+                            // which of the named pending IDs must / may be claimed
+                            let mut must: Vec<Id> = Vec::new();
+                            let mut may: Vec<Id> = Vec::new();
+                            for idv in idsv.iter().filter(|i| gm.pel.contains_key(i)) {
+                                if *never {
+                                    continue;
+                                }
+                                if !*idle150 {
+                                    must.push(*idv);
+                                    continue;
+                                }
+                                let margin = std::time::Duration::from_millis(60);
+                                let thr = std::time::Duration::from_millis(150);
+                                match gm.pel_time.get(idv) {
+                                    Some(t) => {
+                                        let idle_lo = t_before.saturating_duration_since(*t);
+                                        let idle_hi = t_after.saturating_duration_since(*t);
+                                        if idle_lo >= thr + margin {
+                                            must.push(*idv);
+                                        } else if idle_hi + margin > thr {
+                                            may.push(*idv);
+                                        }
+                                    }
+                                    None => may.push(*idv),
+                                }
+                            }
                             let got: Vec<Id> = match &r {
                                 Reply::Frame(Frame::Array(v)) if *justid => {
                                     let mut o = Vec::new();
@@ -620,22 +661,38 @@ fn run_history(server: &mut Server, ops: &[Op]) -> CaseResult {
                                 Reply::Frame(f) if f.is_nil() => vec![],
                                 other => return fail("reply-shape", format!("{}: {} -> {:?}", after, show_cmd(&cmd), other)),
                             };
-                            if got != want {
+                            let ok = must.iter().all(|i| got.contains(i)) && got.iter().all(|i| must.contains(i) || may.contains(i)) && got.windows(2).all(|w| w[0] < w[1]);
+                            if !ok {
                                 return fail(
                                     "xclaim",
-                                    format!("{}: of the named IDs {:?} are pending{}, so XCLAIM must return them, got {:?}", after, idsv.iter().filter(|i| gm.pel.contains_key(i)).map(|i| ids(*i)).collect::<Vec<_>>(), if *never { " but none has been idle for an hour" } else { "" }, got.iter().map(|i| ids(*i)).collect::<Vec<_>>()),
+                                    format!(
+                                        "{}: named and pending: {:?}; by their idle time (threshold {}) {:?} must and {:?} may be claimed, got {:?}",
+                                        after,
+                                        idsv.iter().filter(|i| gm.pel.contains_key(i)).map(|i| ids(*i)).collect::<Vec<_>>(),
+                                        if *never { "1 h" } else if *idle150 { "150 ms" } else { "0" },
+                                        must.iter().map(|i| ids(*i)).collect::<Vec<_>>(),
+                                        may.iter().map(|i| ids(*i)).collect::<Vec<_>>(),
+                                        got.iter().map(|i| ids(*i)).collect::<Vec<_>>()
+                                    ),
                                 );
                             }
-                            if !want.is_empty() {
+                            if *idle150 && !must.is_empty() {
+                                labels.insert("xclaim-idle-threshold-met");
+                            }
+                            if *idle150 && idsv.iter().any(|i| gm.pel.contains_key(i) && !must.contains(i) && !may.contains(i)) {
+                                labels.insert("xclaim-idle-threshold-not-met");
+                            }
+                            if !got.is_empty() {
                                 gm.consumers.insert(name.clone());
                             } else if !gm.consumers.contains(&name) {
                                 gm.maybe.insert(name.clone());
                             }
-                            for idv in &want {
+                            for idv in &got {
                                 if gm.pel.get(idv) != Some(&name) {
                                     labels.insert("xclaim-moved-an-entry");
                                 }
                                 gm.pel.insert(*idv, name.clone());
+                                gm.pel_time.insert(*idv, t_after);
                             }
                         }
                         None => {
@@ -706,7 +763,8 @@ fn op2j(o: &Op) -> Value {
         Op::Read { k, g, c, count, noack } => json!({"op": "read", "k": k, "g": g, "c": c, "count": count, "noack": noack}),
         Op::ReadHistory { k, g, c, count } => json!({"op": "history", "k": k, "g": g, "c": c, "count": count}),
         Op::Ack { k, g, picks, unknown, twice } => json!({"op": "ack", "k": k, "g": g, "picks": picks, "unknown": unknown, "twice": twice}),
-        Op::Claim { k, g, c, picks, never, justid, unknown } => json!({"op": "claim", "k": k, "g": g, "c": c, "picks": picks, "never": never, "justid": justid, "unknown": unknown}),
+        Op::Claim { k, g, c, picks, never, justid, unknown, idle150 } => json!({"op": "claim", "k": k, "g": g, "c": c, "picks": picks, "never": never, "justid": justid, "unknown": unknown, "idle150": idle150}),
+        Op::Sleep { ms } => json!({"op": "sleep", "ms": ms}),
         Op::Del { k, pick } => json!({"op": "del", "k": k, "pick": pick}),
     }
 }
@@ -726,7 +784,8 @@ fn j2op(v: &Value) -> Option<Op> {
         "read" => Op::Read { k: u("k") % 2, g: u("g") % 2, c: u("c") % 4, count: cnt(), noack: b("noack") },
         "history" => Op::ReadHistory { k: u("k") % 2, g: u("g") % 2, c: u("c") % 4, count: cnt() },
         "ack" => Op::Ack { k: u("k") % 2, g: u("g") % 2, picks: picks(), unknown: b("unknown"), twice: b("twice") },
-        "claim" => Op::Claim { k: u("k") % 2, g: u("g") % 2, c: u("c") % 4, picks: picks(), never: b("never"), justid: b("justid"), unknown: b("unknown") },
+        "claim" => Op::Claim { k: u("k") % 2, g: u("g") % 2, c: u("c") % 4, picks: picks(), never: b("never"), justid: b("justid"), unknown: b("unknown"), idle150: b("idle150") },
+        "sleep" => Op::Sleep { ms: u("ms") as u32 },
         "del" => Op::Del { k: u("k") % 2, pick: u("pick") },
         _ => return None,
     })
@@ -738,7 +797,7 @@ pub fn run(tier: Tier, seed: u64, replay: Option<Value>) -> i32 {
         tier,
         seed,
         "exploration",
-        "generated histories (4..40 operations) over two streams, two groups and four consumers: XADD of 1-4 entries with explicit increasing IDs (same-millisecond sequences and later milliseconds), XGROUP CREATE at 0 / $ / an existing ID with and without MKSTREAM (also duplicates and missing streams), DESTROY, SETID (also backwards), CREATECONSUMER, DELCONSUMER, XREADGROUP > with and without COUNT and NOACK, XREADGROUP with explicit ID 0 (re-read of the consumer's own pending entries), XACK of delivered, already acknowledged, never added and repeated IDs, XCLAIM with min-idle 0 and one hour, with and without JUSTID, of pending, acknowledged and unknown IDs, XDEL of entries that are not pending. A model (group cursor, pending map id -> owner, consumer set) decides every reply: > reads deliver exactly the entries after the cursor in ID order, each carrying its own payload; NOACK advances the cursor without pending entries; XACK/XCLAIM/DELCONSUMER counts and results. After every step, for every live group: XPENDING summary (total, min, max, per-consumer counts), XPENDING - + range overall and per consumer, XINFO GROUPS (consumers, pending, last-delivered-id) and XINFO CONSUMERS (names, pending) must all equal the model — these are the four stored representations of the pending set. Non-trivial = >= 2 consumers received entries and an XCLAIM moved an entry, a consumer with pending entries was deleted, an XACK named a repeated/unknown ID, a NOACK read delivered, or an explicit-ID re-read returned entries; distinct by hash of the history",
+        "generated histories (4..40 operations) over two streams, two groups and four consumers: XADD of 1-4 entries with explicit increasing IDs (same-millisecond sequences and later milliseconds), XGROUP CREATE at 0 / $ / an existing ID with and without MKSTREAM (also duplicates and missing streams), DESTROY, SETID (also backwards), CREATECONSUMER, DELCONSUMER, XREADGROUP > with and without COUNT and NOACK, XREADGROUP with explicit ID 0 (re-read of the consumer's own pending entries), XACK of delivered, already acknowledged, never added and repeated IDs, XCLAIM with min-idle 0, 150 ms (decided by the harness clock with a 60 ms margin, interleaved with 260 ms sleeps; the idle time restarts at every claim) and one hour, with and without JUSTID, of pending, acknowledged and unknown IDs, XDEL of entries that are not pending. A model (group cursor, pending map id -> owner, consumer set) decides every reply: > reads deliver exactly the entries after the cursor in ID order, each carrying its own payload; NOACK advances the cursor without pending entries; XACK/XCLAIM/DELCONSUMER counts and results. After every step, for every live group: XPENDING summary (total, min, max, per-consumer counts), XPENDING - + range overall and per consumer, XINFO GROUPS (consumers, pending, last-delivered-id) and XINFO CONSUMERS (names, pending) must all equal the model — these are the four stored representations of the pending set. Non-trivial = >= 2 consumers received entries and an XCLAIM moved an entry, a consumer with pending entries was deleted, an XACK named a repeated/unknown ID, a NOACK read delivered, or an explicit-ID re-read returned entries; distinct by hash of the history",
     ));
     ev.lock().unwrap().assumptions.push("delivery counters and idle times are not compared (the property does not state them); entries that are pending are never deleted by the generator (what then happens to the pending entry is not stated by the property); a > read with nothing to deliver may answer nil or an empty array".into());
     let mk = |_: usize| Server::start(ServerOpts::default());
@@ -769,7 +828,7 @@ pub fn run(tier: Tier, seed: u64, replay: Option<Value>) -> i32 {
             }
         };
     }
-    let cfg = LoopCfg { cases: tier.pick(8000, 100000), workers: 12, max_shrink_execs: 300, max_violations: std::env::var("FVH_MAX_VIOL").ok().and_then(|s| s.parse().ok()).unwrap_or(8) };
+    let cfg = LoopCfg { cases: tier.pick(5000, 100000), workers: 12, max_shrink_execs: 300, max_violations: std::env::var("FVH_MAX_VIOL").ok().and_then(|s| s.parse().ok()).unwrap_or(8) };
     let max_len = tier.pick(40, 80);
     crate::driver::run_cases(&ev, &cfg, || proptest::collection::vec(op(), 4..=max_len), mk, |s, ops: &Vec<Op>| run_history(s, ops), |ops| json!({"ops": ops.iter().map(op2j).collect::<Vec<_>>()}));
     let e = ev.lock().unwrap();
